@@ -297,7 +297,20 @@ Fixpoint min_paren (e : expr) : sx :=
   | EHole => SHole
   | EBool b => SBool b
   | EString s => SStr (c_quote :: escape_numbat_string s ++ [c_quote])
-  | EInterp _ => SStr []                    (* not in the class of `printable`; see Syntax/TypedPrinter.v for the echo *)
+  | EInterp parts =>
+      (* the parts in the shape the parser builds them: text before the first interpolation, then per
+         interpolation the expression, its specifiers and the text after it; canonical lexemes *)
+      let si :=
+        (fix go (ps : list (ipart expr)) : str * list (sx * option str * str) :=
+           match ps with
+           | [] => ([], [])
+           | PFixed s :: r => let (s0, it) := go r in (s ++ s0, it)
+           | PExpr a f :: r =>
+               let (s0, it) := go r in
+               ([], (min_paren a, f,
+                     125%N :: escape_numbat_string s0 ++ [match it with [] => c_quote | _ :: _ => 123%N end]) :: it)
+           end) parts in
+      SInterp (c_quote :: escape_numbat_string (fst si) ++ [123%N]) (snd si)
   | EUn Negate a => SNeg (at_level 10 (min_paren a))
   | EUn (Factorial n) a => SFact (at_level 14 (min_paren a)) (pred n)
   | EUn LogicalNeg a => SNot (at_level 5 (min_paren a))
@@ -324,7 +337,15 @@ Fixpoint printable (e : expr) : bool :=
   | EScalar l => forallb (fun c => negb (c =? 95)%N) l
   | EScalarExp _ => false
   | EIdent _ | EHole | EBool _ | EString _ => true
-  | EInterp _ => false
+  | EInterp parts =>
+      (* the shape the parser builds: no empty text, no two texts in a row, at least one interpolation *)
+      existsb (fun p => match p with PExpr _ _ => true | PFixed _ => false end) parts
+      && (fix np (prev_fixed : bool) (ps : list (ipart expr)) : bool :=
+            match ps with
+            | [] => true
+            | PFixed s :: r => negb prev_fixed && match s with [] => false | _ => true end && np true r
+            | PExpr a _ :: r => printable a && np false r
+            end) false parts
   | EUn (Factorial n) a => negb (n =? 0) && printable a
   | EUn _ a => printable a
   | EBin _ a b => printable a && printable b
